@@ -22,15 +22,27 @@ def reg(P, pid, lean, oracles, extra_components=()):
         P.ORACLE_COMPONENT[k] = "vsock"
 
 
+def _demo_d2(P):
+    def demo():
+        import json as _json
+        import check
+        ops = [l.strip() for l in open("/verif/corpus/vsock/known_d2_probe_resplit_after_delivery.ops") if l.strip()]
+        (res,), _tr = check.run_cases([ops])
+        return any(h["sig"].get("what") == "diverged_after_delivered_probe_was_resplit" for h in VO.oracle_stream_content(ops, res[0]))
+    return demo
+
+
 def register(P):
+    import json as _json
+    P.KNOWN_DEMOS[_json.dumps({"oracle": "stream", "what": "diverged_after_delivered_probe_was_resplit"}, sort_keys=True)] = _demo_d2(P)
     reg(P, "C18", ["UtpVerif.Props.C18"], ["stream_content"])
     reg(P, "C05", ["UtpVerif.Props.C05"], ["window"])
     reg(P, "C07", ["UtpVerif.Props.C07"], ["ack_timeliness"])
     reg(P, "C17", ["UtpVerif.Props.C17"], ["stream_content"])
     reg(P, "C01", ["UtpVerif.Props.C01"], ["stream_content"], ["segs", "txring", "rx"])
-    reg(P, "C02", ["UtpVerif.Props.C02"], ["calls_resolve", "ack_timeliness"], ["txring", "rx"])
-    reg(P, "C03", ["UtpVerif.Props.C03"], ["calls_resolve", "stream_content"], ["txring", "rx"])
-    reg(P, "C06", ["UtpVerif.Props.C06"], ["stream_content"], ["segs"])
+    reg(P, "C02", ["UtpVerif.Props.C02"], ["calls_resolve", "ack_timeliness", "rtx_timer"], ["txring", "rx"])
+    reg(P, "C03", ["UtpVerif.Props.C03"], ["calls_resolve", "stream_content", "ack_honesty"], ["txring", "rx"])
+    reg(P, "C06", ["UtpVerif.Props.C06"], ["stream_content", "retx_cap"], ["segs"])
     reg(P, "C08", ["UtpVerif.Props.C08"], ["calls_resolve"])
     reg(P, "C10", ["UtpVerif.Props.C10"], ["bug_errors"], ["segs", "rx", "wire"])
     # component oracles of the extra components
@@ -48,4 +60,6 @@ def register(P):
     P.PROPS["C14"]["oracles"]["stream_content"] = VO.ALL["stream_content"]
     P.ORACLE_COMPONENT["datagram_sizes"] = "vsock"
     P.PROPS["C04"]["components"].append("vsock")
+    P.PROPS["C04"]["oracles"]["ack_honesty"] = VO.ALL["ack_honesty"]
+    P.ORACLE_COMPONENT["ack_honesty"] = "vsock"
     P.PROPS["C19"]["components"].append("vsock")
